@@ -39,13 +39,14 @@ def is_jwk(value: Dict[str, Any]) -> None:
         raise ValueError("must be a JWK")
 
 
-def in_choices(choices: list[str]) -> Callable[[Union[str, list[str]]], None]:
+def in_choices(choices: list[str], is_list: bool = False) -> Callable[[Union[str, list[str]]], None]:
     def _is_one_of(value: str | list[str]) -> None:
-        if isinstance(value, list):
-            if not all(v in choices for v in value):
-                raise ValueError(f"must be one of {choices}")
+        if is_list:
+            # an array of values, each of them one of the choices
+            if not isinstance(value, list) or not all(isinstance(v, str) and v in choices for v in value):
+                raise ValueError(f"must be a list of {choices}")
 
-        elif value not in choices:
+        elif not isinstance(value, str) or value not in choices:
             raise ValueError(f"must be one of {choices}")
 
     return _is_one_of
@@ -148,7 +149,7 @@ JWK_PARAMETER_REGISTRY = {
             "unwrapKey",
             "deriveKey",
             "deriveBits",
-        ]),
+        ], is_list=True),
     ),
     "alg": KeyParameter("Algorithm", is_str),
     "kid": KeyParameter("Key ID", is_str),
